@@ -12,7 +12,8 @@ LOG = {"name": "drop the verbose-mode log statement", "drop_block": r"if \(getVe
 RAISE = {"name": "tfel::raise_if(c, msg) -> ghost exception flag, path ends", "re": r"tfel::raise_if\((.*?),\s*\"[^;]*\);", "sub": r"RAISE_IF(\1);", "min": 1}
 GLOBAL = {"name": "global-scope qualifier", "re": r"(?<![\w:])::(\w)", "sub": r"\1"}
 THIS = {"name": "this->l", "re": r"this->l\b", "sub": "this_l"}
-TAIL = [GLOBAL, THIS, {"name": "member calls on this", "re": r"this->(lock|unlock)\(\)", "sub": r"MFrontLock_\1()"},
+UNLINK = {"name": "sem_unlink(<name expression>) -> model stub (the name expression is dropped)", "re": r"::sem_unlink\([^;]*\);", "sub": "sem_unlink_any();"}
+TAIL = [UNLINK, GLOBAL, THIS, {"name": "member calls on this", "re": r"this->(lock|unlock)\(\)", "sub": r"MFrontLock_\1()"},
         {"name": "singleton access", "re": r"MFrontLock::getMFrontLock\(\)\.(lock|unlock)\(\)", "sub": r"MFrontLock_\1()"},
         {"name": "no unmapped C++ may remain", "forbid": r"this->|tfel::|std::|<<"}]
 BODIES = [
